@@ -591,6 +591,17 @@ def check(ctx):
         and any(isinstance(x, ast.Expr) and isinstance(x.value, ast.Call) and norm(x.value.func) == "dependencies.update" for x in ast.walk(expand[0]))
     ctx.check(ok, "C10.R11", f"{fd.qualname}:expand", None, "a callable member is no longer replaced (removed, then updated) by its own dependencies", fd, expand[0] if expand else fd.node, detail="dependencies.remove(attr); dependencies.update(rec_deps)")
 
+    # ---------------- R15: private names
+    ctx.rule("C10.R15", "dependency discovery reads the validator's source, where `self.__helper` is not yet mangled, while the class holds `_Cls__helper`: the recorded name is mangled with the defining class, otherwise the helper is never found, its name stays in the dependency set as a field nobody provides and the validator never runs", floor=2)
+    dfv = model.func("apischema.validation.dependencies.DependencyFinder.visit_Attribute")
+    t15 = norm(dfv.node)
+    mangles = ".startswith('__')" in t15 and ".endswith('__')" in t15 and any(isinstance(j, ast.JoinedStr) and norm(j).startswith("f'_{") for j in ast.walk(dfv.node))
+    ctx.check(mangles, "C10.R15", f"{dfv.qualname}:mangling", None,
+              "`self.__name` is recorded under its source spelling: a validator reaching its fields through a private helper (`def __hidden(self)`) has the single dependency '__hidden', never provided, and is silently dropped for every datum",
+              dfv, dfv.node, detail="'_' + class name + attr for names starting with two underscores")
+    fdp = model.func("apischema.validation.dependencies.find_dependencies")
+    ctx.check("__qualname__" in norm(fdp.node), "C10.R15", f"{fdp.qualname}:defining-class", None, "the defining class (for mangling) is no longer derived from the function's __qualname__", fdp, fdp.node, detail="class name from func.__qualname__")
+
     # ---------------- R14: the mock on which validators run when some field is invalid
     ctx.rule("C10.R14", "ValidatorMock stands for the object that could not be built: a deserialized value is returned whatever it is (None included: presence is `name in values`), a defaulted field of the *deserialization* view gives its default, `__class__` answers the validated class and helpers take the class from `obj.__class__` (never type(obj)), static methods are not bound", floor=6)
     mk = model.func("apischema.validation.mock.ValidatorMock.__getattribute__")
@@ -711,6 +722,7 @@ def fixtures(ctx):
 
 
 def mutants(mb):
+    mb.add_text("private-names-not-mangled", "apischema/validation/dependencies.py", "            if self.cls_name and attr.startswith(\"__\") and not attr.endswith(\"__\"):\n                attr = f\"_{self.cls_name}{attr}\"\n", "", "C10.R15", "mangling")
     MK = "apischema/validation/mock.py"
     mb.add_text("mock-none-is-absent", MK, "        if name in values:\n            return values[name]\n", "        value = values.get(name)\n        if value is not None:\n            return value\n", "C10.R14", "presence")
     mb.add_text("getters-type-of-mock", "apischema/objects/getters.py", "        obj if isinstance(obj, (type, _GenericAlias)) else obj.__class__\n", "        obj if isinstance(obj, (type, _GenericAlias)) else type(obj)\n", "C10.R14", "object_fields2")
